@@ -55,6 +55,13 @@ def one(name):
 from concurrent.futures import ThreadPoolExecutor
 with ThreadPoolExecutor(JOBS) as tp:
     list(tp.map(one, [n for n in names if not only or n in only]))
+if only:      # partial run: merge into the existing file instead of replacing it
+    try:
+        prev = json.load(open(os.path.join(ROOT, "seeded", "REGRESSION.json")))
+        prev.update(out)
+        out = prev
+    except Exception:
+        pass
 out = dict(sorted(out.items()))
 json.dump(out, open(os.path.join(ROOT, "seeded", "REGRESSION.json"), "w"), indent=1)
-print(sum(1 for v in out.values() if v.get("caught")), "of", sum(1 for v in out.values() if not v.get("skipped")), "caught")
+print(sum(1 for v in out.values() if isinstance(v, dict) and v.get("caught")), "of", sum(1 for v in out.values() if isinstance(v, dict) and not v.get("skipped")), "caught")
